@@ -52,6 +52,11 @@ def make_codec_features(cfg):
     if cfg["custom_quant_matrix"]:
         assert cfg["dwt_depth"] == 1 and cfg["dwt_depth_ho"] == 0
         qm = {0: {"LL": 0}, 1: {"HL": 1, "LH": 1, "HH": 2}}
+        if cfg["name"] == "hq_explicit_default_qm":
+            from vc2_data_tables import QUANTISATION_MATRICES
+
+            dflt = QUANTISATION_MATRICES[(WaveletFilters(cfg["wavelet_index"]), WaveletFilters(cfg["wavelet_index_ho"]), 1, 0)]
+            qm = dict((lv, dict(o)) for lv, o in dflt.items())
     return CodecFeatures(
         name=cfg["name"],
         level=Levels(cfg.get("level", 1)),
